@@ -109,7 +109,7 @@ W("zonal:crop", "values", identity=False, props=("C18",),
 W("perlin:perlin", "agg", props=("C10",))
 
 # ---- C19: circle / annulus kernels in terms of the (proved) ellipse mask
-OPAQUE_EXTRA = {"convolution:_get_distance"}
+OPAQUE_EXTRA = {"convolution:_get_distance", "proximity:_process"}
 _R = "_get_distance(str(%s))"
 _CK = "_ellipse_kernel(int(%s / cellsize_x), int(%s / cellsize_y))"
 W("convolution:circle_kernel", None, identity=False, props=("C19",),
@@ -121,3 +121,15 @@ W("convolution:annulus_kernel", None, identity=False, props=("C19",),
   # outer circle minus the inner circle padded symmetrically (half of the shape difference on each side), zeros outside
   numpy="%s - np.pad(%s, pad_width=((%s[0] // 2, %s[0] // 2), (%s[1] // 2, %s[1] // 2)), mode='constant', constant_values=0)"
         % (_KO, _KI, _PV, _PV, _PV, _PV))
+
+
+# ---- C06 / C07: the three public functions hand the same arguments to the one driver and differ only in the mode constant;
+# the result carries the input's coords / dims / attrs.  (_process is opaque here: its block function is the C06 glue contract.)
+for _fn, _mode in (("proximity", "PROXIMITY"), ("allocation", "ALLOCATION"), ("direction", "DIRECTION")):
+    W("proximity:%s" % _fn, "raster", name_param=None, props=("C06", "C07", "C10"),
+      numpy="_process(raster, x=x, y=y, target_values=target_values, max_distance=max_distance, distance_metric=distance_metric, "
+            "process_mode=%s)" % _mode)
+
+# ---- identity of the result (coords / dims / attrs of the input raster) for the remaining raster -> raster functions
+W("pathfinding:a_star_search", "surface", name_param=None, props=("C14", "C10"))
+W("viewshed:viewshed", "raster", name_param=None, props=("C05", "C10"))
